@@ -11,6 +11,7 @@ import Pxv.Driver.Domain
 import Pxv.Driver.Bp
 import Pxv.Driver.Scope
 import Pxv.Driver.Life
+import Pxv.Driver.Rules
 open Pxv.Driver
 
 def main (args : List String) : IO UInt32 := do
@@ -28,4 +29,5 @@ def main (args : List String) : IO UInt32 := do
   | ["bp"] => serve Pxv.Bp.handle; return 0
   | ["scope"] => serve Pxv.Scope.handle; return 0
   | ["life"] => serve Pxv.Life.handle; return 0
+  | ["rules"] => serve Pxv.Rules.handle; return 0
   | _ => IO.eprintln "usage: pxmodel <model>"; return 2
